@@ -35,7 +35,7 @@ impl C09 {
 }
 
 /// ground argument values: atoms, structures with two functors, an integer, a list
-const VALS: &[&str] = &["va", "vb", "vc", "f(va)", "f(vb)", "g(va)", "1", "[va]"];
+const VALS: &[&str] = &["va", "vb", "vc", "f(va)", "f(vb)", "g(va)", "1", "[va]", "va", "vb", "f(va)", "1", "vc", "_"];
 
 #[derive(Clone, Debug)]
 struct Clause {
@@ -67,6 +67,13 @@ struct Model {
     bucket_retracted: Vec<(String, String)>,
     /// asserta into a bucket after a retraction in that bucket (stale index entry defect)
     dup_hazard: bool,
+    /// per predicate: a clause with a variable first argument was asserted / an asserta or a
+    /// retraction happened (together: threading defects of var-headed clauses)
+    var_headed: [bool; 2],
+    front_or_retract: [bool; 2],
+    /// per predicate: an asserta happened / a call went through first-argument indexing
+    asserta_seen: [bool; 2],
+    indexed_call: [bool; 2],
     /// (log length, database text) after every writer step, for the fault configuration
     states: Vec<(usize, String)>,
 }
@@ -142,6 +149,7 @@ impl Model {
     }
 
     fn note_retraction(&mut self, pred: &str, first: &str) {
+        self.front_or_retract[pred_ix(pred)] = true;
         let k = index_key(Some(first)).unwrap();
         if !self.bucket_retracted.iter().any(|(p, key)| p == pred && *key == k) {
             self.bucket_retracted.push((pred.to_string(), k));
@@ -161,11 +169,29 @@ fn pat_text(p: &[Option<String>]) -> String {
 }
 
 fn matches(pat: &[Option<String>], args: &[String]) -> bool {
-    pat.iter().zip(args.iter()).all(|(p, a)| match p.as_deref() {
-        None => true,
-        Some("f(_)") => a.starts_with("f("),
-        Some(p) => p == a,
+    pat.iter().zip(args.iter()).all(|(p, a)| {
+        // a clause argument `_` (variable in the clause head) unifies with anything
+        a == "_"
+            || match p.as_deref() {
+                None => true,
+                Some("f(_)") => a.starts_with("f("),
+                Some(p) => p == a,
+            }
     })
+}
+
+/// the call's arguments after unification with the clause head
+fn inst(pat: &[Option<String>], args: &[String]) -> Vec<String> {
+    pat.iter()
+        .zip(args.iter())
+        .map(|(p, a)| {
+            if a == "_" {
+                p.clone().unwrap_or_else(|| "_".into())
+            } else {
+                a.clone()
+            }
+        })
+        .collect()
 }
 
 fn pat_of(v: &Value) -> Vec<Option<String>> {
@@ -181,19 +207,23 @@ fn solve(m: &mut Model, pred: &str, pat: &[Option<String>], k: &mut dyn FnMut(&m
     let outer_key = index_key(pat.first().and_then(|x| x.as_deref()));
     if let Some(key) = &outer_key {
         m.open_indexed.push((pred.to_string(), key.clone()));
+        m.indexed_call[pred_ix(pred)] = true;
     }
     'outer: for c in snap {
         match &c.body {
-            None => k(m, &c.args),
+            None => k(m, &inst(pat, &c.args)),
             Some(bpat) => {
+                let bpat: Vec<Option<String>> = bpat.iter().map(|x| if x.as_deref() == Some("_") { None } else { x.clone() }).collect();
+                let bpat = &bpat;
                 let now2 = m.clock;
                 let inner: Vec<Clause> = m.visible("q", now2).into_iter().map(|(_, c)| c).filter(|c2| matches(bpat, &c2.args)).collect();
                 let inner_key = index_key(bpat.first().and_then(|x| x.as_deref()));
                 if let Some(key) = &inner_key {
                     m.open_indexed.push(("q".to_string(), key.clone()));
+                    m.indexed_call[1] = true;
                 }
                 for _c2 in inner {
-                    k(m, &c.args);
+                    k(m, &inst(pat, &c.args));
                     if m.stop() {
                         break;
                     }
@@ -228,7 +258,15 @@ fn run(m: &mut Model, ops: &[Value], k: usize) {
     let op = &ops[k];
     let pred = op["pred"].as_str().unwrap_or("p").to_string();
     let pi = pred_ix(&pred);
-    let pat = pat_of(&op["args"]);
+    let mut pat = pat_of(&op["args"]);
+    if !op["op"].as_str().unwrap_or("").starts_with("assert") {
+        // `_` in a call pattern is just an unbound argument
+        for x in pat.iter_mut() {
+            if x.as_deref() == Some("_") {
+                *x = None;
+            }
+        }
+    }
     let id = k;
     match op["op"].as_str().unwrap_or("") {
         "assertz" | "asserta" | "assertz_rule" | "asserta_rule" => {
@@ -241,8 +279,14 @@ fn run(m: &mut Model, ops: &[Value], k: usize) {
                 m.ambiguous = Some("clause-cursor");
             }
             let front = op["op"].as_str().unwrap().starts_with("asserta");
+            // (asserta or assertz: both leave stale or duplicate index entries after a retraction)
+            m.note_asserta(&pred, &first);
             if front {
-                m.note_asserta(&pred, &first);
+                m.front_or_retract[pi] = true;
+                m.asserta_seen[pi] = true;
+            }
+            if first == "_" {
+                m.var_headed[pi] = true;
             }
             let v = m.pred(&pred);
             if front {
@@ -308,7 +352,7 @@ fn run(m: &mut Model, ops: &[Value], k: usize) {
             let now = m.clock;
             let snap: Vec<Clause> = m.visible(&pred, now).into_iter().map(|(_, c)| c).filter(|c| c.body.is_none() && matches(&pat, &c.args)).collect();
             for c in snap {
-                m.log.push(format!("k({},{})", id, c.args.join(",")));
+                m.log.push(format!("k({},{})", id, inst(&pat, &c.args).join(",")));
                 run(m, ops, k + 1);
                 if m.stop() {
                     break;
@@ -340,7 +384,7 @@ fn run(m: &mut Model, ops: &[Value], k: usize) {
                     return;
                 }
                 m.note_state();
-                m.log.push(format!("r({},{})", id, c.args.join(",")));
+                m.log.push(format!("r({},{})", id, inst(&pat, &c.args).join(",")));
                 run(m, ops, k + 1);
                 if m.stop() {
                     return;
@@ -393,7 +437,14 @@ fn head_text(pred: &str, pat: &[Option<String>], id: usize) -> (String, String) 
 
 fn goal_text(op: &Value, id: usize, guard: bool) -> String {
     let pred = op["pred"].as_str().unwrap_or("p");
-    let pat = pat_of(&op["args"]);
+    let mut pat = pat_of(&op["args"]);
+    if !op["op"].as_str().unwrap_or("").starts_with("assert") {
+        for x in pat.iter_mut() {
+            if x.as_deref() == Some("_") {
+                *x = None;
+            }
+        }
+    }
     let (head, args) = head_text(pred, &pat, id);
     // after abolish/1 a call may fail or raise existence_error: both "see no clauses"
     let call = if guard { format!("c09_call({head})") } else { head.clone() };
@@ -535,9 +586,17 @@ impl Check for C09 {
             // 1: the history adds or removes a clause in the index bucket an open first-argument-
             // indexed cursor is walking; 2: it does asserta into an index bucket in which a clause
             // was retracted before. Violations in such histories are keyed apart (known findings).
-            let pre = if hazard == 1 { "indexed-cursor-modified" } else { "asserta-into-bucket-after-retract" };
+            // 3: a clause with a variable first argument in a predicate that also sees an
+            // asserta or a retraction (clause threading defects)
+            let pre = match hazard {
+                1 => "indexed-cursor-modified",
+                2 => "assert-into-bucket-after-retract",
+                // 4: asserta/1 on a predicate that is also called with a bound first argument
+                4 => "asserta-and-indexed-call",
+                _ => "var-headed-clause-with-asserta-or-retract",
+            };
             for v in out.violations.iter_mut() {
-                if !v.key.starts_with("with-open-clause-cursor:") {
+                if hazard == 3 || !v.key.starts_with("with-open-clause-cursor:") {
                     v.key = format!("{pre}:{}", v.key.split(':').next().unwrap_or(""));
                 }
             }
@@ -612,7 +671,9 @@ impl C09 {
         model.steps = 0;
         model.note_state();
         run(&mut model, &ops, 0);
-        *hazard = if model.index_hazard { 1 } else if model.dup_hazard { 2 } else { 0 };
+        let var_hazard = (0..2).any(|i| model.var_headed[i] && model.front_or_retract[i]);
+        let asserta_hazard = (0..2).any(|i| model.asserta_seen[i] && model.indexed_call[i]);
+        *hazard = if var_hazard { 3 } else if model.index_hazard { 1 } else if model.dup_hazard { 2 } else if asserta_hazard { 4 } else { 0 };
         let want_db = model.db_text();
 
         // implementation
@@ -710,7 +771,7 @@ impl C09 {
             }
         };
         let parts = super::c40::split_top(&b2, ';');
-        let get = |name: &str| parts.iter().find_map(|p| p.strip_prefix(&format!("{}=", name)).map(|x| x.replace('"', ""))).unwrap_or_default();
+        let get = |name: &str| parts.iter().find_map(|p| p.strip_prefix(&format!("{}=", name)).map(|x| canon_anon(&x.replace('"', "")))).unwrap_or_default();
         let got_log_items = list_items(&get("Log"));
         let got_db = format!("p{} q{}", norm_db(&get("P"), 1), norm_db(&get("Q"), 2));
 
@@ -782,7 +843,7 @@ impl C09 {
             } else {
                 // calls agree with clause/2
                 let b3 = match r3.items.first() {
-                    Some(Ans::Bind(b)) => b.replace('"', ""),
+                    Some(Ans::Bind(b)) => canon_anon(&b.replace('"', "")),
                     _ => String::new(),
                 };
                 if !want_db.contains(":-") {
@@ -865,4 +926,25 @@ fn norm_db(list: &str, arity: usize) -> String {
         }
     }
     format!("[{}]", out.join(","))
+}
+
+
+/// `_123`, `_G5`, `_A` -> `_`
+fn canon_anon(s: &str) -> String {
+    let cs: Vec<char> = s.chars().collect();
+    let mut out = String::new();
+    let mut i = 0;
+    while i < cs.len() {
+        if cs[i] == '_' && (i == 0 || !(cs[i - 1].is_alphanumeric() || cs[i - 1] == '_')) {
+            out.push('_');
+            i += 1;
+            while i < cs.len() && (cs[i].is_alphanumeric() || cs[i] == '_') {
+                i += 1;
+            }
+        } else {
+            out.push(cs[i]);
+            i += 1;
+        }
+    }
+    out
 }
